@@ -53,6 +53,17 @@ def cases(tier, seed):
         out.append({"cid": f"c10-{seed}-{k}", "lib": rng.choice(["ufoLib2", "defcon"]), "fam": fam,
                     "flavor": rng.choice(["tt", "cff2"]), "varFeatures": rng.random() < 0.6,
                     "prodNames": rng.random() < 0.2, "kern2": rng.random() < 0.25})
+        if k % 4 == 3:
+            # fixed share: a glyph-to-class exception that is exactly 0 in EVERY master (it cancels the class-to-class value
+            # for that glyph), variable features, both kern writers in turn
+            for m in fam["masters"]:
+                kern = m["ufo"].get("kerning")
+                if kern is None:
+                    continue
+                kern[:] = [e for e in kern if (e[0], e[1]) != ("e", "public.kern2.A")] + [["e", "public.kern2.A", 0]]
+                if not any((e[0], e[1]) == ("public.kern1.O", "public.kern2.A") for e in kern):
+                    kern.append(["public.kern1.O", "public.kern2.A", -37 * 4])
+            out[-1].update({"varFeatures": True, "prodNames": False, "kern2": k % 8 == 7})
     out += vfs_cases(random.Random(seed * 373587883 + 100010), 4 if tier == "quick" else 40, f"c10-{seed}")
     return out
 
